@@ -766,7 +766,29 @@ func main() {
 				}
 			}
 		}
-		flush()
+		// Data() at the boundary: Embed(nil) on streams whose every candidate carries a chosen length field
+		if e0.model != "ed" {
+			for _, lf := range []int{0, el - 1, el, el + 1, el + 2, 255} {
+				r := rng.Fork()
+				buf := mkTape(r, "xof", e0.cand)
+				for k := 0; (k+1)*e0.cand <= len(buf); k++ {
+					switch e0.model {
+					case "p256":
+						buf[k*e0.cand+31] = byte(lf)
+					case "bn256":
+						buf[k*e0.cand] = byte(lf)
+					case "qr":
+						buf[(k+1)*e0.cand-2], buf[(k+1)*e0.cand-1] = 0, byte(lf)
+					}
+				}
+				res, ok := c.embedOracle(e0, nil, false, buf, "length-field")
+				rep.Count(fmt.Sprintf("lengthfield/%s/%d/%s", e0.name, lf, vh.Hex(buf[:64])), true)
+				if ok && !o.Search {
+					items = append(items, res.coq(nil, buf, e0.cand))
+				}
+			}
+			flush()
+		}
 	}
 
 	// Data() of decoded Ed25519 points with a chosen length byte
